@@ -248,7 +248,7 @@ Proof.
   destruct (peek_kind_up P s2 x l HU2) as [s3 [Hp [HU3 HS]]].
   destruct (Adv_Same P _ _ _ _ HA HS) as [Hb [Hi [Ht Hsc]]].
   destruct (reset_one P s3 lp (before P s) (idx P s) (x :: l) Hb Hi HU3) as [s4 [Hr [HU4 [_ [Hi4 [Ht4 Hsc4]]]]]].
-  exists s4. split; [|split; [exact HU4|split; [exact Hi4|split; [congruence|exact (fun H => Hsc4 (Hsc H))]]]]. intros f. rewrite tptn_eq. unfold bind at 1. rewrite mark_eq. unfold bind at 1. rewrite Ha.
+  exists s4. split; [|split; [exact HU4|split; [exact Hi4|split; [congruence|exact (SC_trans P _ _ _ Hsc Hsc4)]]]]. intros f. rewrite tptn_eq. unfold bind at 1. rewrite mark_eq. unfold bind at 1. rewrite Ha.
   unfold bind at 1. unfold starts_declaration. unfold bind at 1. rewrite Hp. unfold ret at 1. cbn [okind_in]. rewrite Hx. cbn [negb].
   unfold bind at 1. rewrite Hr. reflexivity.
 Qed.
